@@ -213,7 +213,27 @@ func anyExpr(g *xgen.G, rt *rapid.T, ctx *xdoc.Node) (e xast.Expr, nodeSet bool)
 		}
 		p = pp
 	}
-	switch rapid.IntRange(0, 6).Draw(rt, "wrap") {
+	switch rapid.IntRange(0, 10).Draw(rt, "wrap") {
+	case 7:
+		return &xast.Call{Name: rapid.SampledFrom([]string{"name", "local-name", "namespace-uri"}).Draw(rt, "namefn"), Args: []xast.Expr{p}}, false
+	case 8:
+		return &xast.Call{Name: rapid.SampledFrom([]string{"string-length", "normalize-space", "number", "floor"}).Draw(rt, "strfn1"), Args: []xast.Expr{p}}, false
+	case 9, 10:
+		// a string built from pooled builders with an argument whose evaluation aborts for some nodes only
+		// (sum of a non-numeric string, an invalid pattern taken from the document): whatever an aborted
+		// evaluation leaves behind must not show in the next one
+		var fragile xast.Expr
+		attr := &xast.Path{Steps: []interface{}{&xast.Step{Axis: "attribute", Test: xast.NodeTest{Kind: "name", Local: rapid.SampledFrom([]string{"x", "y"}).Draw(rt, "fattr")}, Abbr: true}}}
+		if rapid.Bool().Draw(rt, "fragkind") {
+			fragile = &xast.Call{Name: "string", Args: []xast.Expr{&xast.Call{Name: "sum", Args: []xast.Expr{&xast.Call{Name: "string", Args: []xast.Expr{attr}}}}}}
+		} else {
+			fragile = &xast.Call{Name: "string", Args: []xast.Expr{&xast.Call{Name: "matches", Args: []xast.Expr{&xast.Str{S: "a"}, &xast.Call{Name: "concat", Args: []xast.Expr{&xast.Str{S: "("}, attr}}}}}}
+		}
+		inner := &xast.Call{Name: "concat", Args: []xast.Expr{&xast.Str{S: "k"}, &xast.Call{Name: "normalize-space", Args: []xast.Expr{&xast.Str{S: " v "}}}, fragile}}
+		if rapid.Bool().Draw(rt, "fragwrap") {
+			return &xast.Call{Name: "string-join", Args: []xast.Expr{&xast.Path{Abs: true, Steps: []interface{}{xast.DSlash{}, &xast.Step{Axis: "child", Test: xast.NodeTest{Kind: "wild"}, Abbr: true, Preds: []xast.Expr{&xast.Bin{Op: "!=", L: inner, R: &xast.Str{S: ""}}}}}}, &xast.Str{S: ","}}}, false
+		}
+		return inner, false
 	case 3:
 		return &xast.Call{Name: "sum", Args: []xast.Expr{p}}, false
 	case 4:
